@@ -73,10 +73,13 @@ func GenInput(seeds []Seed, i int) Input {
 		// the corpus itself, unchanged (baseline: these must all be handled)
 		in.SeedName, in.Main, in.Muts = seeds[i].Name, seeds[i].Data, []string{MutNone}
 		useAux(seeds[i])
+	} else if i == len(seeds) {
+		// one fixed slot for the dependency ring (each run of it costs a full CPU limit)
+		in.SeedName, in.Main, in.Muts = "synthetic", depRing(30), []string{MutStructNest + ":dep-ring"}
 	} else if r.Intn(25) == 0 {
 		in.SeedName = "synthetic"
 		var k string
-		in.Main, k = hugeLexical(r)
+		in.Main, k = hugeLexical(r, h.Thorough())
 		in.Muts = []string{k}
 	} else {
 		s := seeds[r.Intn(len(seeds))]
@@ -86,15 +89,15 @@ func GenInput(seeds []Seed, i int) Input {
 		// structure-aware stage
 		if doc := parse(data); doc != nil && r.Intn(10) < 8 {
 			changed := false
-			n := 1 + r.Intn(3)
+			n := [...]int{1, 1, 1, 1, 1, 2, 2, 2, 3, 3}[r.Intn(10)]
 			for k := 0; k < n; k++ {
-				switch x := r.Intn(10); {
-				case x < 7:
+				switch x := r.Intn(20); {
+				case x < 15:
 					if m := structMutate(r, doc); m != "" {
 						in.Muts = append(in.Muts, m)
 						changed = true
 					}
-				case x < 8:
+				case x < 17:
 					if _, ok := renameTask(r, doc); ok {
 						in.Muts = append(in.Muts, MutName)
 						changed = true
@@ -115,7 +118,7 @@ func GenInput(seeds []Seed, i int) Input {
 			}
 		}
 		// lexical stage
-		if len(in.Muts) == 0 || r.Intn(10) < 3 {
+		if len(in.Muts) == 0 || r.Intn(10) < 2 {
 			n := 1
 			if r.Intn(4) == 0 {
 				n = 2
